@@ -149,3 +149,44 @@ def pick_time(rng, t, allow_bad=True):
     if not allow_bad:
         pool = [x for x in pool if 0 <= x <= dur(t)] or [0]
     return rng.choice(pool)
+
+
+# ---------------------------------------------------------------- exhaustive small scope (thorough tier)
+def enumerate_trees(max_nodes=4, leaf_lengths=(0, 1, 2)):
+    """every tree with at most `max_nodes` nodes over the given leaf lengths (labels numbered in DFS order)"""
+    from functools import lru_cache
+
+    @lru_cache(maxsize=None)
+    def shapes(n):
+        """tuples describing trees with exactly n nodes: ('L', d) | ('S'|'P', children...)"""
+        out = []
+        if n == 1:
+            out += [("L", d) for d in leaf_lengths]
+        for kind in ("S", "P"):
+            for forest in forests(n - 1):
+                out.append((kind,) + forest)
+        return tuple(out)
+
+    @lru_cache(maxsize=None)
+    def forests(n):
+        """ordered forests with exactly n nodes in total"""
+        if n == 0:
+            return ((),)
+        out = []
+        for first in range(1, n + 1):
+            for t in shapes(first):
+                for rest in forests(n - first):
+                    out.append((t,) + rest)
+        return tuple(out)
+
+    def label(t, counter):
+        if t[0] == "L":
+            counter[0] += 1
+            return ["L", t[1], counter[0]]
+        return [t[0], 0, 0] + [label(c, counter) for c in t[1:]]
+
+    res = []
+    for n in range(1, max_nodes + 1):
+        for t in shapes(n):
+            res.append(label(t, [0]))
+    return res
